@@ -99,6 +99,24 @@ func c14(r *core.Run) {
 			}
 		}
 	}
+	constructors := map[*ssa.Function]bool{}
+	for fn := range allowed {
+		constructors[fn] = true
+	}
+	// ... and the helpers it calls (same package, statically, to depth 3): their results flow into the same literal
+	for d := 0; d < 3; d++ {
+		for fn := range allowed {
+			for _, nf := range core.Nest(fn) {
+				core.InstrsOf(nf, func(in ssa.Instruction) {
+					if c := core.CallOf(in); c != nil {
+						if g := core.StaticCallee(c); g != nil && p.IsProdFunc(g) && g.Pkg == fn.Pkg && g.Blocks != nil {
+							allowed[g] = true
+						}
+					}
+				})
+			}
+		}
+	}
 	nStores := 0
 	for _, fn := range p.Funcs {
 		core.InstrsOf(fn, func(in ssa.Instruction) {
@@ -128,7 +146,7 @@ func c14(r *core.Run) {
 
 	c14Mounts(r)
 	c14Runtime(r)
-	c14Reserved(r, allowed)
+	c14Reserved(r, constructors)
 	c14Escape(r)
 }
 
@@ -252,6 +270,9 @@ func c14Mounts(r *core.Run) {
 	lits := compositeLits(p, sandboxPath(p), "Mount")
 	n := 0
 	for _, l := range lits {
+		if len(l.Lit.Elts) == 0 {
+			continue // Mount{}: the zero value returned next to an error, mounts nothing
+		}
 		src := l.field("Source")
 		sv := constOf(l.Pkg, src)
 		where := enclosingFuncName(l.Pkg, l.File, l.Lit.Pos())
@@ -308,31 +329,60 @@ func c14Reserved(r *core.Run, specFuncs map[*ssa.Function]bool) {
 			}
 		})
 		r.Floor("C14.RESERVED", "reserved sandbox paths in "+fnm, len(reserved), 4)
-		// fixed destinations must be reserved
-		var fixed []string
-		var userDest []*ssa.Store
+		// fixed destinations must be reserved; user mounts are built here or in a helper that is handed the
+		// reserved set (the helper's parameter then stands for it)
+		type mctx struct {
+			f    *ssa.Function
+			rmap ssa.Value
+		}
+		ctxs := []mctx{{fn, reservedMap}}
 		core.InstrsOf(fn, func(in ssa.Instruction) {
-			st, ok := in.(*ssa.Store)
-			if !ok {
+			c := core.CallOf(in)
+			if c == nil {
 				return
 			}
-			fa, ok := st.Addr.(*ssa.FieldAddr)
-			if !ok || !core.IsNamed(fa.X.Type(), sandboxPath(p), "Mount") || core.FieldName(fa.X.Type(), fa.Field) != "Destination" {
+			g := core.StaticCallee(c)
+			if g == nil || !p.IsProdFunc(g) || g.Pkg != fn.Pkg || g.Blocks == nil || g == fn {
 				return
 			}
-			if s, ok := core.ConstString(st.Val); ok {
-				fixed = append(fixed, s)
-				return
-			}
-			// destination from filepath.Abs of a requested mount → user mount
-			for _, o := range core.Origins(st.Val) {
-				if ex, ok := o.(*ssa.Extract); ok {
-					if _, isAbs := callTo(ex.Tuple, "path/filepath.Abs"); isAbs {
-						userDest = append(userDest, st)
-					}
+			for i, a := range c.Args {
+				if reservedMap != nil && i < len(g.Params) && (a == reservedMap || slotOf(a) == slotOf(reservedMap)) {
+					ctxs = append(ctxs, mctx{g, g.Params[i]})
 				}
 			}
 		})
+		var fixed []string
+		type userMount struct {
+			st   *ssa.Store
+			f    *ssa.Function
+			rmap ssa.Value
+		}
+		var userDest []userMount
+		for _, cx := range ctxs {
+			cx := cx
+			core.InstrsOf(cx.f, func(in ssa.Instruction) {
+				st, ok := in.(*ssa.Store)
+				if !ok {
+					return
+				}
+				fa, ok := st.Addr.(*ssa.FieldAddr)
+				if !ok || !core.IsNamed(fa.X.Type(), sandboxPath(p), "Mount") || core.FieldName(fa.X.Type(), fa.Field) != "Destination" {
+					return
+				}
+				if s, ok := core.ConstString(st.Val); ok {
+					fixed = append(fixed, s)
+					return
+				}
+				// destination from filepath.Abs of a requested mount → user mount
+				for _, o := range core.Origins(st.Val) {
+					if ex, ok := o.(*ssa.Extract); ok {
+						if _, isAbs := callTo(ex.Tuple, "path/filepath.Abs"); isAbs {
+							userDest = append(userDest, userMount{st, cx.f, cx.rmap})
+						}
+					}
+				}
+			})
+		}
 		sort.Strings(fixed)
 		for _, d := range fixed {
 			r.Check(reserved[d], "C14.RESERVED", fnm+"#fixed-destination("+d+")", fn.Pos(), "fixed sandbox mount point is reserved", "fixed sandbox mount point "+d+" is not in the reserved set: a requested path can shadow it")
@@ -340,7 +390,8 @@ func c14Reserved(r *core.Run, specFuncs map[*ssa.Function]bool) {
 		if !r.Floor("C14.RESERVED", "user-mount construction (Destination from filepath.Abs) in "+fnm, len(userDest), 1) {
 			continue
 		}
-		for _, st := range userDest {
+		for _, um := range userDest {
+			st, fn, reservedMap := um.st, um.f, um.rmap
 			ex := core.Origins(st.Val)[0].(*ssa.Extract)
 			absCall := ex.Tuple
 			sink := st.Block()
@@ -405,7 +456,8 @@ func c14Reserved(r *core.Run, specFuncs map[*ssa.Function]bool) {
 					return
 				}
 				name := core.CalleeName(&c.Call)
-				if name != "sort.SliceStable" && name != "sort.Slice" {
+				threeWay := strings.HasPrefix(name, "slices.SortStableFunc") || strings.HasPrefix(name, "slices.SortFunc")
+				if name != "sort.SliceStable" && name != "sort.Slice" && !threeWay {
 					return
 				}
 				if !sameSliceAfter(core.Unwrap(c.Call.Args[0]), st.Val, c) {
@@ -430,6 +482,18 @@ func c14Reserved(r *core.Run, specFuncs map[*ssa.Function]bool) {
 				}
 				good := false
 				for _, ret := range core.Returns(less) {
+					if threeWay {
+						// func(a, b Mount) int { return strings.Compare(a.Destination, b.Destination) }
+						if cmpc, ok := ret.Results[0].(*ssa.Call); ok && len(less.Params) == 2 && len(cmpc.Call.Args) == 2 {
+							cn := core.CalleeName(&cmpc.Call)
+							bx, okx := core.FieldLoad(cmpc.Call.Args[0], "Destination")
+							by, oky := core.FieldLoad(cmpc.Call.Args[1], "Destination")
+							if (cn == "strings.Compare" || strings.HasPrefix(cn, "cmp.Compare")) && okx && oky && spilledParam(bx) == ssa.Value(less.Params[0]) && spilledParam(by) == ssa.Value(less.Params[1]) {
+								good = true
+							}
+						}
+						continue
+					}
 					b, ok := ret.Results[0].(*ssa.BinOp)
 					if !ok || b.Op != token.LSS {
 						continue
@@ -533,4 +597,17 @@ func sameSliceAfter(sorted, later ssa.Value, at *ssa.Call) bool {
 		}
 	}
 	return true
+}
+
+
+// spilledParam: v is a parameter, or the local copy go/ssa makes of a struct parameter whose fields are addressed.
+func spilledParam(v ssa.Value) ssa.Value {
+	if al, ok := v.(*ssa.Alloc); ok {
+		if sts := core.StoresTo(al); len(sts) == 1 {
+			if pa, ok := sts[0].Val.(*ssa.Parameter); ok {
+				return pa
+			}
+		}
+	}
+	return v
 }
